@@ -283,3 +283,21 @@ EXTRA10 = {
 for _pid, _x in EXTRA10.items():
     if _pid in CLAIMED:
         CLAIMED[_pid]["text"] += _x
+
+EXTRA11 = {
+ "C01": " Round 11: no handler rewrites the Succeeded verdict of a backend write (R13).",
+ "C02": " Round 11: TSO.Commit looks at the allocator on every path (R8).",
+ "C03": " Round 11: a count kept in a field of the worker is reset per attempt (R10); the TiKV snapshot stays at snapshot isolation (C11-R19 as R13).",
+ "C04": " Round 11: one report per allocated revision (R12); no lost wake-up on an unbuffered channel (R13).",
+ "C05": " Round 11: the Created acknowledgement precedes the watch goroutine (R20); the live subscription continues exactly behind the replay (R21).",
+ "C06": " Round 11: the committed revision replaces a requested one only when that is 0 (R8); C04-R12 into R1.",
+ "C11": " Round 11: no isolation level below snapshot isolation (R19); the in-process Commit is all-or-nothing (R20); a validation pass is not the apply loop (R14).",
+ "C12": " Round 11: C11-R19/R20 into R0.",
+ "C13": " Round 11: the less function of a sort indexes the slice that is sorted (R11).",
+ "C16": " Round 11: write paths read the latest state of the key (R12); C05-R21 into R10.",
+ "C17": " Round 11: the failed-delete marker is not cleared inside the scan loop (R12).",
+ "C20": " Round 11: no lock is held across a wait loop (R14).",
+}
+for _pid, _x in EXTRA11.items():
+    if _pid in CLAIMED:
+        CLAIMED[_pid]["text"] += _x
